@@ -948,3 +948,324 @@ Proof.
   - intros [x [Hx Hk]]. apply (Hsame x Hx). exact Hk.
   - intro Hk. exists b. auto.
 Qed.
+
+(* ------------------------------------------------------------------ *)
+(* prefilters are monotone in the block's ranges                        *)
+
+Ltac b2p :=
+  repeat (rewrite ?andb_true_iff, ?orb_true_iff, ?negb_true_iff, ?Z.leb_le, ?Z.ltb_lt, ?Z.eqb_eq, ?Z.eqb_neq in * ).
+
+Lemma eval_minmax_mono mn mx mn' mx' c :
+  mn <= mx -> mn' <= mn -> mx <= mx' -> in64 mn' -> in64 mx' ->
+  eval_minmax (mn, mx) c = true -> eval_minmax (mn', mx') c = true.
+Proof.
+  unfold eval_minmax, in64, MaxInt64, MinInt64. intros H0 H1 H2 H3 H4.
+  destruct (n_op c); try (intro H; b2p; lia); try (intro H; exact H).
+  intro H. apply existsb_exists in H as [v [Hv H]]. apply existsb_exists. exists v. split; [exact Hv|]. b2p. lia.
+Qed.
+
+(* m' describes a block at least as wide as m: same partition, every key of m present in
+   m' with a range that contains m's *)
+Definition meta_le (m m' : blockmeta) : Prop :=
+  b_partition m = b_partition m' /\
+  forall k mn mx, assoc k (b_mm m) = Some (mn, mx) ->
+    exists mn' mx', assoc k (b_mm m') = Some (mn', mx') /\ mn' <= mn /\ mx <= mx' /\ in64 mn' /\ in64 mx'.
+
+Lemma eval_pcond_mono m m' c :
+  mm_ok (b_mm m) -> meta_le m m' -> eval_pcond m c = true -> eval_pcond m' c = true.
+Proof.
+  intros Hok [Hp Hm]. destruct c as [[sc|]|f [nc|]|]; simpl; try (intro; reflexivity); try discriminate.
+  - rewrite <- Hp. auto.
+  - destruct (assoc f (b_mm m)) as [[mn mx]|] eqn:E; [|discriminate].
+    destruct (Hm f mn mx E) as [mn' [mx' [E' [A [B [C D]]]]]]. rewrite E'.
+    destruct (mm_ok_assoc _ _ _ _ Hok E) as [_ [_ Hle]]. apply eval_minmax_mono; auto.
+Qed.
+
+Lemma eval_pexpr_mono m m' e :
+  mm_ok (b_mm m) -> meta_le m m' -> eval_pexpr m e = true -> eval_pexpr m' e = true.
+Proof.
+  intros Hok Hle. induction e as [c|cs IH|cs IH|] using pexpr_ind'; simpl; intro H.
+  - destruct c as [c|]; [|reflexivity]. eapply eval_pcond_mono; eauto.
+  - rewrite forallb_forall in *. rewrite Forall_forall in IH. intros x Hx. apply IH; auto.
+  - apply existsb_exists in H as [x [Hx H]]. apply existsb_exists. exists x. rewrite Forall_forall in IH. auto.
+  - discriminate.
+Qed.
+
+Lemma block_passes_mono pre m m' :
+  mm_ok (b_mm m) -> meta_le m m' -> block_passes pre m = true -> block_passes pre m' = true.
+Proof. destruct pre as [e|]; simpl; [apply eval_pexpr_mono|auto]. Qed.
+
+Lemma merged_meta_le c e g b :
+  bgroup_ok c g -> (forall x, In x g -> block_wf x) -> In b g ->
+  meta_le (b_meta b) (b_meta (merged_block e g)).
+Proof.
+  intros Hg Hwf Hb. pose proof (merged_block_wf c e g Hg Hwf) as [_ [_ [Hok _]]].
+  destruct Hg as [_ [Hkey _]]. split.
+  - cbn [merged_block b_meta b_partition]. destruct g as [|b0 t]; [contradiction|].
+    symmetry. apply (same_key_partition b0 b). apply Hkey; simpl; auto.
+  - intros k mn mx E.
+    assert (Hc : mm_covers (b_minmax b) k mn mx) by (exists mn, mx; split; [exact E|lia]).
+    apply (merge_mms_covers g b k mn mx Hb) in Hc. destruct Hc as [mn' [mx' [E' [A B]]]].
+    exists mn', mx'. cbn [merged_block b_meta b_mm]. split; [exact E'|].
+    unfold b_minmax in Hok. cbn [merged_block b_meta b_mm] in Hok.
+    destruct (mm_ok_assoc _ _ _ _ Hok E') as [C [D _]]. auto.
+Qed.
+
+(* ------------------------------------------------------------------ *)
+(* multiset inclusion                                                   *)
+
+Definition msub {A} (l1 l2 : list A) : Prop := exists l, Permutation (l1 ++ l) l2.
+
+Lemma msub_refl {A} (l : list A) : msub l l.
+Proof. exists []. rewrite app_nil_r. reflexivity. Qed.
+
+Lemma msub_nil {A} (l : list A) : msub [] l.
+Proof. exists l. reflexivity. Qed.
+
+Lemma msub_app {A} (a b c d : list A) : msub a b -> msub c d -> msub (a ++ c) (b ++ d).
+Proof.
+  intros [x Hx] [y Hy]. exists (x ++ y). rewrite <- Hx, <- Hy.
+  rewrite <- !app_assoc. apply Permutation_app_head. rewrite !app_assoc. apply Permutation_app_tail.
+  apply Permutation_app_comm.
+Qed.
+
+Lemma msub_perm {A} (a a' b b' : list A) : Permutation a a' -> Permutation b b' -> msub a b -> msub a' b'.
+Proof. intros Ha Hb [x Hx]. exists x. rewrite <- Ha, <- Hb. exact Hx. Qed.
+
+Lemma msub_trans {A} (a b c : list A) : msub a b -> msub b c -> msub a c.
+Proof. intros [x Hx] [y Hy]. exists (x ++ y). rewrite app_assoc, Hx. exact Hy. Qed.
+
+Lemma msub_flat_map {A B} (f g : A -> list B) (l : list A) :
+  (forall x, In x l -> msub (f x) (g x)) -> msub (flat_map f l) (flat_map g l).
+Proof.
+  induction l as [|x t IH]; simpl; intro H; [apply msub_refl|].
+  apply msub_app; [apply H; auto|apply IH; intros; apply H; auto].
+Qed.
+
+(* ------------------------------------------------------------------ *)
+(* query answers before and after a merge                               *)
+
+Lemma flat_map_ext_in' {A B} (f g : A -> list B) (l : list A) :
+  (forall x, In x l -> f x = g x) -> flat_map f l = flat_map g l.
+Proof.
+  induction l as [|x t IH]; simpl; intro H; [reflexivity|].
+  rewrite H by auto. f_equal. apply IH. intros; apply H; auto.
+Qed.
+
+Lemma flat_map_all_nil {A B} (f : A -> list B) (l : list A) :
+  (forall x, In x l -> f x = []) -> flat_map f l = [].
+Proof.
+  induction l as [|x t IH]; simpl; intro H; [reflexivity|].
+  rewrite H by auto. apply IH. intros; apply H; auto.
+Qed.
+
+Section QueryProofs.
+  Variable Q : Type.
+  Variable row_sat : Q -> mrow -> bool.
+  Variable guard : Q -> (str -> bool) -> bool.
+  Variable ftest : Z -> list str -> str -> bool.
+  (* a filter never denies an entry that was inserted (bloom filters have no false negatives) *)
+  Hypothesis ftest_nofn : forall p E x, In x E -> ftest p E x = true.
+  (* the pruning test is monotone in the filter's answers ... *)
+  Hypothesis guard_mono : forall q (m1 m2 : str -> bool),
+    (forall x, m1 x = true -> m2 x = true) -> guard q m1 = true -> guard q m2 = true.
+  (* ... and passes on the entries of a row the row matcher accepts (C01's prune soundness) *)
+  Hypothesis guard_sound : forall q r, row_sat q r = true -> guard q (fun x => mem_str x (mr_ents r)) = true.
+
+  Notation run_query := (run_query Q row_sat guard ftest).
+  Notation query_file := (query_file Q row_sat guard ftest).
+  Notation query_block := (query_block Q row_sat guard ftest).
+
+  Lemma guard_on_entries q r p E :
+    row_sat q r = true -> (forall x, In x (mr_ents r) -> In x E) -> guard q (ftest p E) = true.
+  Proof.
+    intros Hs Hin. eapply guard_mono; [|apply guard_sound; exact Hs].
+    intros x Hx. apply ftest_nofn. apply Hin. apply mem_str_In. exact Hx.
+  Qed.
+
+  (* what a block contributes once the filters are known not to lose anything *)
+  Definition qb (pre : option pexpr) (q : Q) (b : block) : list mrow :=
+    if block_passes pre (b_meta b) then filter (row_sat q) (b_rows b) else [].
+
+  Lemma query_block_qb pre q b : block_wf b -> query_block pre q b = qb pre q b.
+  Proof.
+    intros [_ [_ [_ [_ He]]]]. unfold MergePlan.query_block, block_hit, qb.
+    destruct (block_passes pre (b_meta b)); simpl; [|reflexivity].
+    destruct (guard q (ftest (b_fparam b) (b_ents b))) eqn:G; [reflexivity|].
+    symmetry. apply filter_all_false. intros r Hr. destruct (row_sat q r) eqn:S; [|reflexivity].
+    rewrite (guard_on_entries q r (b_fparam b) (b_ents b) S) in G; [discriminate|].
+    intros x Hx. eapply He; eauto.
+  Qed.
+
+  Lemma query_file_qb pre q f : file_wf f -> query_file pre q f = flat_map (qb pre q) (f_blocks f).
+  Proof.
+    intros [Hb He]. unfold MergePlan.query_file.
+    assert (Heq : flat_map (query_block pre q) (f_blocks f) = flat_map (qb pre q) (f_blocks f)).
+    { apply flat_map_ext_in'. intros b Hin. apply query_block_qb. auto. }
+    destruct (guard q (ftest (f_fparam f) (f_ents f))) eqn:G; [exact Heq|].
+    symmetry. clear Heq.
+    assert (Hnil : forall b, In b (f_blocks f) -> qb pre q b = []).
+    { intros b Hin. unfold qb. destruct (block_passes pre (b_meta b)); [|reflexivity].
+      apply filter_all_false. intros r Hr. destruct (row_sat q r) eqn:S; [|reflexivity].
+      rewrite (guard_on_entries q r (f_fparam f) (f_ents f) S) in G; [discriminate|].
+      intros x Hx. eapply He; eauto. }
+    apply flat_map_all_nil. exact Hnil.
+  Qed.
+
+  Lemma run_query_qb pre q st :
+    (forall f, In f st -> file_wf f) -> run_query pre q st = flat_map (qb pre q) (all_blocks st).
+  Proof.
+    intro Hwf. unfold MergePlan.run_query, all_blocks.
+    induction st as [|f t IH]; simpl; [reflexivity|].
+    rewrite flat_map_app, query_file_qb by (apply Hwf; simpl; auto).
+    f_equal. apply IH. intros; apply Hwf; simpl; auto.
+  Qed.
+
+  Lemma filter_flat_map {A B} (p : B -> bool) (g : A -> list B) (l : list A) :
+    filter p (flat_map g l) = flat_map (fun x => filter p (g x)) l.
+  Proof. induction l as [|x t IH]; simpl; [reflexivity|]. rewrite filter_app, IH. reflexivity. Qed.
+
+  (* without a prefilter the answer is exactly the matching rows of the store *)
+  Lemma run_query_none q st :
+    (forall f, In f st -> file_wf f) -> run_query None q st = filter (row_sat q) (all_rows st).
+  Proof.
+    intro Hwf. rewrite run_query_qb by exact Hwf. unfold all_rows. rewrite filter_flat_map. reflexivity.
+  Qed.
+
+  (* C11: queries without a prefilter *)
+  Lemma merge_query_eq e c st st' q :
+    store_wf st -> merge_ok e c st st' ->
+    Permutation (run_query None q st') (run_query None q st).
+  Proof.
+    intros Hwf Hm. pose proof (merge_store_wf e c st st' Hwf Hm) as Hwf'.
+    rewrite (run_query_none q st' (proj2 Hwf')), (run_query_none q st (proj2 Hwf)).
+    apply filter_perm. apply (merge_rows e c st st' (proj1 Hwf) Hm).
+  Qed.
+
+  (* one output block returns at least what its sources returned *)
+  Lemma out_block_msub c e pre q pg :
+    bgroup_ok c pg -> (forall b, In b pg -> block_wf b) ->
+    msub (flat_map (qb pre q) pg) (qb pre q (out_block e pg)).
+  Proof.
+    intros Hg Hwf. destruct pg as [|b [|b' t]].
+    - apply msub_nil.
+    - simpl. rewrite app_nil_r. apply msub_refl.
+    - change (out_block e (b :: b' :: t)) with (merged_block e (b :: b' :: t)).
+      set (g := b :: b' :: t) in *. unfold qb at 2.
+      destruct (block_passes pre (b_meta (merged_block e g))) eqn:P.
+      + cbn [merged_block b_rows]. rewrite filter_flat_map. apply msub_flat_map.
+        intros x Hx. unfold qb. destruct (block_passes pre (b_meta x)); [apply msub_refl|apply msub_nil].
+      + assert (Hn : forall x, In x g -> qb pre q x = []).
+        { intros x Hx. unfold qb. destruct (block_passes pre (b_meta x)) eqn:Px; [|reflexivity].
+          rewrite (block_passes_mono pre (b_meta x) (b_meta (merged_block e g))) in P; [discriminate| | |exact Px].
+          - apply (Hwf x Hx).
+          - eapply merged_meta_le; eauto. }
+        assert (E : flat_map (qb pre q) g = []).
+        { apply flat_map_all_nil. exact Hn. }
+        rewrite E. apply msub_nil.
+  Qed.
+
+  Lemma out_file_msub e c po p g pre q :
+    porder_ok g po -> (forall f, In f g -> file_wf f) ->
+    msub (flat_map (qb pre q) (group_blocks g)) (flat_map (qb pre q) (f_blocks (out_file e c po p g))).
+  Proof.
+    intros [Hn Hc] Hwf.
+    destruct (plan_blocks_spec c po (group_blocks g) Hn Hc) as [Hp Hg]. rewrite Forall_forall in Hg.
+    assert (Hbwf : forall b, In b (group_blocks g) -> block_wf b).
+    { intros b Hb. unfold group_blocks in Hb. apply in_flat_map in Hb as [f [Hf Hb]]. apply (Hwf f Hf). exact Hb. }
+    cbn [out_file f_blocks]. rewrite flat_map_map'.
+    eapply msub_perm; [apply Permutation_flat_map; exact Hp|reflexivity|].
+    rewrite flat_map_concat'. apply msub_flat_map. intros pg Hpg.
+    eapply out_block_msub; [apply Hg; exact Hpg|].
+    intros b Hb. apply Hbwf. eapply Permutation_in; [exact Hp|]. apply in_concat. exists pg. auto.
+  Qed.
+
+  Lemma all_blocks_app a b : all_blocks (a ++ b) = all_blocks a ++ all_blocks b.
+  Proof. unfold all_blocks. apply flat_map_app. Qed.
+
+  Lemma out_files_msub e c pre q : forall groups porders ptrs,
+    Forall2 porder_ok groups porders -> length ptrs = length groups ->
+    (forall g f, In g groups -> In f g -> file_wf f) ->
+    msub (flat_map (qb pre q) (all_blocks (concat groups)))
+         (flat_map (qb pre q) (all_blocks (out_files e c groups porders ptrs))).
+  Proof.
+    induction groups as [|g gs IH]; intros porders ptrs HF Hl Hwf.
+    - inversion HF; subst. simpl. apply msub_refl.
+    - inversion HF as [|? po ? pos Hpo HF']; subst. destruct ptrs as [|p ps]; [simpl in Hl; lia|].
+      cbn [out_files concat]. change (out_file e c po p g :: out_files e c gs pos ps)
+        with ([out_file e c po p g] ++ out_files e c gs pos ps).
+      rewrite !all_blocks_app, !flat_map_app. apply msub_app.
+      + unfold all_blocks at 2. simpl. rewrite app_nil_r.
+        apply (out_file_msub e c po p g pre q Hpo). intros f Hf. apply (Hwf g f); simpl; auto.
+      + apply IH; [exact HF'|simpl in Hl; lia|]. intros g' f Hg' Hf. apply (Hwf g' f); simpl; auto.
+  Qed.
+
+  (* C11: queries with a prefilter return a superset (as multisets) ... *)
+  Lemma merge_query_superset e c st st' pre q :
+    store_wf st -> merge_ok e c st st' ->
+    msub (run_query pre q st) (run_query pre q st').
+  Proof.
+    intros Hwf Hm. pose proof (merge_store_wf e c st st' Hwf Hm) as Hwf'.
+    rewrite (run_query_qb pre q st' (proj2 Hwf')), (run_query_qb pre q st (proj2 Hwf)).
+    destruct Hwf as [Hn Hfw].
+    destruct Hm as [sorted [porders [ptrs [Hs [HF [Hl [_ [_ ->]]]]]]]].
+    destruct (merge_store_shape e c sorted porders ptrs st Hs Hn) as [lo [H1 H2]].
+    set (groups := plan_files_ord c sorted) in *.
+    assert (P1 : Permutation (flat_map (qb pre q) (all_blocks st))
+                             (flat_map (qb pre q) (all_blocks lo) ++ flat_map (qb pre q) (all_blocks (concat groups)))).
+    { rewrite <- flat_map_app, <- all_blocks_app. apply Permutation_flat_map. unfold all_blocks.
+      apply Permutation_flat_map. rewrite <- H1. apply Permutation_app_comm. }
+    assert (P2 : Permutation (flat_map (qb pre q) (all_blocks (merge_store e c sorted porders ptrs st)))
+                             (flat_map (qb pre q) (all_blocks lo) ++
+                              flat_map (qb pre q) (all_blocks (out_files e c groups porders ptrs)))).
+    { rewrite <- flat_map_app, <- all_blocks_app. apply Permutation_flat_map. unfold all_blocks.
+      apply Permutation_flat_map. exact H2. }
+    eapply msub_perm; [symmetry; exact P1|symmetry; exact P2|].
+    apply msub_app; [apply msub_refl|].
+    apply out_files_msub; [exact HF|exact Hl|].
+    intros g f Hg Hf. apply Hfw. eapply Permutation_in; [exact H1|]. apply in_or_app. left.
+    apply in_concat. exists g. auto.
+  Qed.
+
+  (* ... limited to rows that match the bloom and regex expression *)
+  Lemma run_query_sat pre q st r : In r (run_query pre q st) -> row_sat q r = true.
+  Proof.
+    unfold MergePlan.run_query. intro H. apply in_flat_map in H as [f [_ H]].
+    unfold MergePlan.query_file in H. destruct (guard q (ftest (f_fparam f) (f_ents f))); [|contradiction].
+    apply in_flat_map in H as [b [_ H]]. unfold MergePlan.query_block in H.
+    destruct (block_hit Q guard ftest pre q b); [|contradiction]. apply filter_In in H. apply H.
+  Qed.
+
+  (* repeated merges, any limits and environments at each step *)
+  Inductive merges : list file -> list file -> Prop :=
+  | merges_refl st : merges st st
+  | merges_step st st1 st2 e c : merges st st1 -> merge_ok e c st1 st2 -> merges st st2.
+
+  Lemma merges_wf st st' : store_wf st -> merges st st' -> store_wf st'.
+  Proof.
+    intros Hwf H. induction H as [|st st1 st2 e c H IH Hm]; [exact Hwf|].
+    apply (merge_store_wf e c st1 st2 (IH Hwf) Hm).
+  Qed.
+
+  Lemma merges_rows st st' : store_wf st -> merges st st' -> Permutation (all_rows st') (all_rows st).
+  Proof.
+    intros Hwf H. induction H as [|st st1 st2 e c H IH Hm]; [reflexivity|].
+    pose proof (merges_wf _ _ Hwf H) as [Hn _].
+    rewrite (merge_rows e c st1 st2 Hn Hm). apply IH. exact Hwf.
+  Qed.
+
+  Lemma merges_query_eq st st' q :
+    store_wf st -> merges st st' -> Permutation (run_query None q st') (run_query None q st).
+  Proof.
+    intros Hwf H. induction H as [|st st1 st2 e c H IH Hm]; [reflexivity|].
+    rewrite (merge_query_eq e c st1 st2 q (merges_wf _ _ Hwf H) Hm). apply IH. exact Hwf.
+  Qed.
+
+  Lemma merges_query_superset st st' pre q :
+    store_wf st -> merges st st' -> msub (run_query pre q st) (run_query pre q st').
+  Proof.
+    intros Hwf H. induction H as [|st st1 st2 e c H IH Hm]; [apply msub_refl|].
+    eapply msub_trans; [apply IH; exact Hwf|].
+    apply (merge_query_superset e c st1 st2 pre q (merges_wf _ _ Hwf H) Hm).
+  Qed.
+End QueryProofs.
